@@ -37,7 +37,7 @@ class Dual:
 
 
 def _is_leaf(x):
-  return isinstance(x, (Arr, Dual))
+  return isinstance(x, (Arr, Dual)) or type(x).__name__ == 'RVar'
 
 
 def flatten(tree):
@@ -103,32 +103,83 @@ def _dot(ct, tan):
   return s
 
 
+class RVar:
+  """reverse-mode tape node: value + [(parent, local derivative)]"""
+
+  def __init__(self, val, parents=()):
+    self.val, self.parents = val, tuple(parents)
+
+  @staticmethod
+  def lift(x):
+    return x if isinstance(x, RVar) else RVar(x)
+
+  def __add__(self, o):
+    o = RVar.lift(o)
+    return RVar(self.val + o.val, ((self, 1), (o, 1)))
+  __radd__ = __add__
+
+  def __sub__(self, o):
+    o = RVar.lift(o)
+    return RVar(self.val - o.val, ((self, 1), (o, -1)))
+
+  def __rsub__(self, o):
+    return RVar.lift(o) - self
+
+  def __mul__(self, o):
+    o = RVar.lift(o)
+    return RVar(self.val * o.val, ((self, o.val), (o, self.val)))
+  __rmul__ = __mul__
+
+  def __neg__(self):
+    return RVar(-self.val, ((self, -1),))
+
+
+def _strip(tree):
+  leaves, td = flatten(tree)
+  return td.unflatten([_rebuild(l, [e.val if isinstance(e, (RVar, Dual)) else e
+                                    for e in _elems(l)]) for l in leaves])
+
+
 def ref_vjp(f, *primals, has_aux=False, reduce_axes=()):
-  """(y, bwd[, aux]); bwd(ct) -> one cotangent per primal argument"""
-  res = f(*primals)
+  """(y, bwd[, aux]); bwd(ct) -> one cotangent per primal argument.  ONE call of f
+  (as under jax tracing): inputs become tape nodes, bwd back-propagates."""
+  pl, td = flatten(tuple(primals))
+  nodes = [[RVar(e) for e in _elems(l)] for l in pl]
+  res = f(*td.unflatten([_rebuild(l, ns) for l, ns in zip(pl, nodes)]))
   if has_aux:
     y, aux = res
   else:
     y, aux = res, None
-  pl, td = flatten(tuple(primals))
+  yl, _ = flatten(y)
 
   def bwd(ct):
-    grads = []
-    for li, leaf in enumerate(pl):
-      g = []
-      for ei in range(len(_elems(leaf))):
-        tl = [_rebuild(l, [1 if (lj == li and ej == ei) else 0
-                           for ej in range(len(_elems(l)))])
-              for lj, l in enumerate(pl)]
-        out = f(*make_dual(tuple(primals), td.unflatten(tl)))
-        if has_aux:
-          out = out[0]
-        g.append(_dot(ct, tangent_of(out)))
-      grads.append(_rebuild(leaf, g))
-    return td.unflatten(grads)
+    cl, _ = flatten(ct)
+    assert len(cl) == len(yl), 'cotangent structure differs from output structure'
+    grad = {}
+    order, seen = [], set()
+
+    def topo(n):
+      if id(n) in seen:
+        return
+      seen.add(id(n))
+      for p, _ in n.parents:
+        topo(p)
+      order.append(n)
+    outs = []
+    for c, yv in zip(cl, yl):
+      for a, b in zip(_elems(c), _elems(yv)):
+        if isinstance(b, RVar):
+          topo(b)
+          grad[id(b)] = grad.get(id(b), 0) + a
+    for n in reversed(order):
+      g = grad.get(id(n), 0)
+      for p, w in n.parents:
+        grad[id(p)] = grad.get(id(p), 0) + g * w
+    return td.unflatten([_rebuild(l, [grad.get(id(nd), 0) for nd in ns])
+                         for l, ns in zip(pl, nodes)])
   if has_aux:
-    return primal_of(y), bwd, primal_of(aux)
-  return primal_of(y), bwd
+    return _strip(y), bwd, _strip(aux)
+  return _strip(y), bwd
 
 
 class ref_custom_vjp:
@@ -145,6 +196,8 @@ class ref_custom_vjp:
 
   def __call__(self, *args):
     leaves, _ = flatten(args)
+    if any(isinstance(e, RVar) for l in leaves for e in _elems(l)):
+      return self._call_tape(args)
     differentiating = any(isinstance(e, Dual) for l in leaves for e in _elems(l))
     if not differentiating:
       return self.fun(*args)
@@ -166,5 +219,34 @@ class ref_custom_vjp:
         for k, i in enumerate(diff_idx):
           dot = dot + _dot(cts[k], targs[i])
         vals.append(Dual(v, dot))
+      out.append(_rebuild(leaf, vals))
+    return ytd.unflatten(out)
+
+  def _call_tape(self, args):
+    """reverse mode: outputs are tape nodes whose parents are the input nodes,
+    weighted by the user's backward rule applied to one-hot cotangents"""
+    pargs = _strip(args)
+    y, res = self.fwd(*pargs)
+    yl, ytd = flatten(y)
+    nond = [pargs[i] for i in self.nondiff]
+    diff_idx = [i for i in range(len(args)) if i not in self.nondiff]
+    out = []
+    for li, leaf in enumerate(yl):
+      vals = []
+      for ei, v in enumerate(_elems(leaf)):
+        onehot = ytd.unflatten([_rebuild(l, [1 if (lj == li and ej == ei) else 0
+                                             for ej in range(len(_elems(l)))])
+                                for lj, l in enumerate(yl)])
+        cts = self.bwd(*nond, res, onehot)
+        parents = []
+        for k, i in enumerate(diff_idx):
+          al, _ = flatten(args[i])
+          gl, _ = flatten(cts[k])
+          assert len(al) == len(gl), 'backward rule structure differs from inputs'
+          for a, g in zip(al, gl):
+            for ae, ge in zip(_elems(a), _elems(g)):
+              if isinstance(ae, RVar):
+                parents.append((ae, ge))
+        vals.append(RVar(v, parents))
       out.append(_rebuild(leaf, vals))
     return ytd.unflatten(out)
